@@ -1,6 +1,202 @@
-/- C01 - property theorems (stub: not built yet) -/
+/-
+C01 - Accepted signatures are intact and bound to the artifact being verified.
+Property theorems only; the model is in `Model/C01.lean` (and `Model/C02.lean` for the
+remaining validations of `processSignature`).
+-/
 import NotationModel.Model.C01
+set_option linter.unusedSimpArgs false
+set_option linter.unusedVariables false
 
 namespace NotationModel.C01
+
+/-- what an accepting run looks like -/
+def okObs (i : Input) (p : Desc) : Obs :=
+  { accepted := true, outcomeError := some false, payload := some p,
+    returned := if i.kind == .blob then some { p with annotations := [] } else none }
+
+/-- case analysis of `run` for a non-skip statement: either it rejects, or every check passed -/
+theorem run_cases (i : Input) (hs : i.skip = false) :
+    run i = reject ∨
+    (i.parseOk = true ∧ i.integrityOk = true ∧ i.payloadTypeOk = true ∧ i.rest = true ∧
+      ∃ p, i.decoded = some p ∧ (i.kind = .blob → i.hashSupported = true) ∧
+        (match i.kind with
+         | .oci => ociEqual p i.artifact = true
+         | .blob => blobMismatch p i.artifact = false) ∧
+        (i.required.isEmpty = true ∨ metadataOk p i.required = true) ∧
+        run i = okObs i p) := by
+  unfold run okObs
+  simp only [hs, Bool.false_eq_true, if_false]
+  cases hp : i.parseOk
+  · left; simp
+  cases hi : i.integrityOk
+  · left; simp
+  cases ht : i.payloadTypeOk
+  · left; simp
+  cases hr : i.rest
+  · left; simp
+  cases hd : i.decoded with
+  | none => left; simp
+  | some p =>
+    simp only [Bool.not_true, Bool.or_self, Bool.false_eq_true, if_false]
+    cases hk : i.kind
+    · -- oci
+      simp only [show (Kind.oci == Kind.blob) = false from rfl, Bool.false_and, Bool.false_eq_true, if_false]
+      cases hm : ociEqual p i.artifact
+      · left; simp
+      · cases hre : i.required.isEmpty
+        · cases hmo : metadataOk p i.required
+          · left; simp
+          · right; exact ⟨trivial, trivial, trivial, trivial, p, rfl, by simp, by simp [hm], Or.inr hmo, by simp [hmo]⟩
+        · right; exact ⟨trivial, trivial, trivial, trivial, p, rfl, by simp, by simp [hm], Or.inl rfl, by simp⟩
+    · -- blob
+      simp only [beq_self_eq_true, Bool.true_and]
+      cases hh : i.hashSupported
+      · left; simp
+      · simp only [Bool.not_true, Bool.false_eq_true, if_false]
+        cases hm : blobMismatch p i.artifact
+        · cases hre : i.required.isEmpty
+          · cases hmo : metadataOk p i.required
+            · left; simp
+            · right; exact ⟨trivial, trivial, trivial, trivial, p, rfl, by simp, by simp [hm], Or.inr hmo, by simp [hmo]⟩
+          · right; exact ⟨trivial, trivial, trivial, trivial, p, rfl, by simp, by simp [hm], Or.inl rfl, by simp⟩
+        · left; simp
+
+theorem metadata_of (p : Desc) (req : List (String × String))
+    (h : req.isEmpty = true ∨ metadataOk p req = true) :
+    ∀ kv ∈ req, p.annotations.lookup kv.1 = some kv.2 := by
+  intro kv hkv
+  rcases h with h | h
+  · simp only [List.isEmpty_iff] at h
+    rw [h] at hkv; simp at hkv
+  · have := List.all_eq_true.1 h kv hkv
+    simpa using this
+
+/-- **C01, OCI**: whenever `verifier.Verify` succeeds under a level other than skip, the envelope
+parses, its signature is valid, the payload is a Notary payload that decodes to a target equal to
+the descriptor under verification (digest, size, media type), every required metadata pair is in
+the signed annotations, and the payload reported is the signed one. -/
+theorem ociAccept_sound (i : Input) (hk : i.kind = .oci) (hs : i.skip = false)
+    (h : (run i).accepted = true) :
+    i.parseOk = true ∧ i.integrityOk = true ∧ i.payloadTypeOk = true ∧ i.rest = true ∧
+    ∃ p, i.decoded = some p ∧ (run i).payload = some p ∧
+      p.digest = i.artifact.digest ∧ p.size = i.artifact.size ∧ p.mediaType = i.artifact.mediaType ∧
+      ∀ kv ∈ i.required, p.annotations.lookup kv.1 = some kv.2 := by
+  rcases run_cases i hs with hr | ⟨h1, h2, h3, h4, p, hd, _, hm, hmeta, hrun⟩
+  · rw [hr] at h; simp [reject] at h
+  · rw [hk] at hm
+    simp only [ociEqual, Bool.and_eq_true, beq_iff_eq] at hm
+    exact ⟨h1, h2, h3, h4, p, hd, by rw [hrun]; rfl, hm.1.2, hm.1.1, hm.2, metadata_of p _ hmeta⟩
+
+/-- **C01, blob**: the same for `notation.VerifyBlob`: digest and size always, the media type
+whenever the caller states one; the descriptor returned is the verified target. -/
+theorem blobAccept_sound (i : Input) (hk : i.kind = .blob) (hs : i.skip = false)
+    (h : (run i).accepted = true) :
+    i.parseOk = true ∧ i.integrityOk = true ∧ i.payloadTypeOk = true ∧ i.rest = true ∧
+    i.hashSupported = true ∧
+    ∃ p, i.decoded = some p ∧ (run i).payload = some p ∧
+      p.digest = i.artifact.digest ∧ p.size = i.artifact.size ∧
+      (i.artifact.mediaType = "" ∨ p.mediaType = i.artifact.mediaType) ∧
+      (∀ kv ∈ i.required, p.annotations.lookup kv.1 = some kv.2) ∧
+      (run i).returned = some { p with annotations := [] } := by
+  rcases run_cases i hs with hr | ⟨h1, h2, h3, h4, p, hd, hh, hm, hmeta, hrun⟩
+  · rw [hr] at h; simp [reject] at h
+  · rw [hk] at hm
+    simp only [blobMismatch, Bool.or_eq_false_iff, bne_eq_false_iff_eq, Bool.and_eq_false_iff] at hm
+    obtain ⟨⟨e1, e2⟩, e3⟩ := hm
+    refine ⟨h1, h2, h3, h4, hh hk, p, hd, by rw [hrun]; rfl, e1.symm, e2.symm, ?_, metadata_of p _ hmeta, ?_⟩
+    · rcases e3 with e3 | e3
+      · left; simpa using e3
+      · right; exact (by simpa using e3 : i.artifact.mediaType = p.mediaType).symm
+    · rw [hrun]; simp [okObs, hk]
+
+/-- **C01, integrity cannot be overridden**: if the envelope does not parse, its signature is not
+valid or the payload type is wrong, verification fails for EVERY remaining input - whatever the
+other validations, the artifact, the metadata, the kind say (only a skip statement accepts). -/
+theorem integrity_not_overridable (i : Input) (hs : i.skip = false)
+    (h : i.parseOk = false ∨ i.integrityOk = false ∨ i.payloadTypeOk = false) :
+    (run i).accepted = false := by
+  unfold run
+  rcases h with h | h | h <;> simp [hs, h, reject]
+
+/-- The same statement composed with the model of `processSignature` (C02): for every scenario of
+the remaining validations - every level, override, trust store content, plugin situation and
+verdict - and EVERY enforcement map, a tampered envelope is rejected. -/
+theorem integrity_not_overridable_by_level_or_plugin (i : Input) (s : C02.Input) (enf : C02.Enf)
+    (hs : i.skip = false)
+    (h : i.parseOk = false ∨ i.integrityOk = false ∨ i.payloadTypeOk = false) :
+    (run { i with rest := (C02.process s enf).accepted }).accepted = false :=
+  integrity_not_overridable _ hs h
+
+/-- a descriptor mismatch survives satisfied metadata (the metadata step only ever sets the error) -/
+theorem mismatch_survives_metadata (i : Input) (p : Desc) (hs : i.skip = false) (hk : i.kind = .oci)
+    (hd : i.decoded = some p)
+    (hm : p.digest ≠ i.artifact.digest ∨ p.size ≠ i.artifact.size ∨ p.mediaType ≠ i.artifact.mediaType) :
+    (run i).accepted = false := by
+  apply Bool.eq_false_iff.2
+  intro hacc
+  obtain ⟨_, _, _, _, q, hq, _, h1, h2, h3, _⟩ := ociAccept_sound i hk hs hacc
+  rw [hd] at hq
+  cases hq
+  rcases hm with h | h | h <;> contradiction
+
+/-- a missing or different metadata pair is never accepted -/
+theorem missing_metadata_rejected (i : Input) (p : Desc) (hs : i.skip = false)
+    (hd : i.decoded = some p) (kv : String × String) (hkv : kv ∈ i.required)
+    (hmiss : p.annotations.lookup kv.1 ≠ some kv.2) : (run i).accepted = false := by
+  apply Bool.eq_false_iff.2
+  intro hacc
+  cases hk : i.kind
+  · obtain ⟨_, _, _, _, q, hq, _, _, _, _, hall⟩ := ociAccept_sound i hk hs hacc
+    rw [hd] at hq; cases hq
+    exact hmiss (hall kv hkv)
+  · obtain ⟨_, _, _, _, _, q, hq, _, _, _, _, hall, _⟩ := blobAccept_sound i hk hs hacc
+    rw [hd] at hq; cases hq
+    exact hmiss (hall kv hkv)
+
+/-- **C01, the whole property**: every clause of `Holds` is true of the model's behaviour. -/
+theorem model_holds (i : Input) : Holds i (run i) = true := by
+  unfold Holds clauses
+  cases hs : i.skip
+  · rcases run_cases i hs with hr | ⟨h1, h2, h3, h4, p, hd, hh, hm, hmeta, hrun⟩
+    · simp [Clauses.holds, hr, reject]
+    · have hmd := metadata_of p _ hmeta
+      cases hk : i.kind
+      · rw [hk] at hm
+        simp only [ociEqual, Bool.and_eq_true, beq_iff_eq] at hm
+        simp [Clauses.holds, hrun, okObs, hs, h1, h2, h3, h4, hd, hk, hm]
+        intro a b hab; exact hmd (a, b) hab
+      · rw [hk] at hm
+        simp only [blobMismatch, Bool.or_eq_false_iff, bne_eq_false_iff_eq, Bool.and_eq_false_iff] at hm
+        obtain ⟨⟨e1, e2⟩, e3⟩ := hm
+        simp [Clauses.holds, hrun, okObs, hs, h1, h2, h3, h4, hd, hk, e1.symm, e2.symm]
+        refine ⟨?_, ?_⟩
+        · rcases e3 with e3 | e3
+          · left; simpa using e3
+          · right; exact (by simpa using e3 : i.artifact.mediaType = p.mediaType).symm
+        · intro a b hab; exact hmd (a, b) hab
+  · simp [Clauses.holds, hs, run]
+
+/-! ### non-vacuity -/
+
+def sampleDesc : Desc := { mediaType := "m", digest := "sha256:aa", size := 3, annotations := [("k", "v")] }
+
+/-- an accepted OCI verification with required metadata -/
+example : (run { kind := .oci, skip := false, parseOk := true, integrityOk := true, payloadTypeOk := true,
+                 rest := true, decoded := some sampleDesc, artifact := { sampleDesc with annotations := [] },
+                 hashSupported := true, required := [("k", "v")] }).accepted = true := by decide
+
+/-- an accepted blob verification where the caller states no media type -/
+example : (run { kind := .blob, skip := false, parseOk := true, integrityOk := true, payloadTypeOk := true,
+                 rest := true, decoded := some sampleDesc,
+                 artifact := { sampleDesc with mediaType := "", annotations := [] },
+                 hashSupported := true, required := [] }).returned = some { sampleDesc with annotations := [] } := by
+  decide
+
+/-- `Holds` refutes an acceptance of a signature made for another artifact -/
+example : Holds { kind := .oci, skip := false, parseOk := true, integrityOk := true, payloadTypeOk := true,
+                  rest := true, decoded := some { sampleDesc with digest := "sha256:bb" },
+                  artifact := { sampleDesc with annotations := [] }, hashSupported := true, required := [] }
+    { accepted := true, outcomeError := some false, payload := some { sampleDesc with digest := "sha256:bb" },
+      returned := none } = false := by decide
 
 end NotationModel.C01
